@@ -142,12 +142,20 @@ class Engine:
         return r
 
     def feasible(self, st, extra=None):
-        # quantified facts are left out of feasibility checks (sound: only ever keeps more paths alive)
+        # quantified facts are left out of the feasibility check (sound: only ever keeps more paths alive) ...
+        quant = [c for c in st.pc if self.has_quant(c)]
         cs = [c for c in st.pc if not self.has_quant(c)]
         if extra is not None:
             cs.append(extra)
         r, _ = self.check(cs, 2000)
-        return r != z3.unsat
+        if r == z3.unsat:
+            return False
+        if quant:
+            # ... unless the solver refutes the path quickly with them (invariants often are what rules a path out)
+            r2, _ = self.check(cs + quant, 400)
+            if r2 == z3.unsat:
+                return False
+        return True
 
     def branch(self, st, cond, label=""):
         """cond: python bool | SBool | z3 Bool.  -> list of (state, bool)"""
